@@ -360,7 +360,11 @@ class FeArray(np.ndarray):
         _parent = getattr(np.ndarray, _name)
 
         def _reducer(self, *args, **kwargs):
-            res = _parent(self, *args, **kwargs)
+            # on the plain view: np.std / np.var subtract the mean internally, which must not
+            # be realigned as "field minus constant tensor"
+            res = _parent(self.view(np.ndarray), *args, **kwargs)
+            if _name == "ravel":
+                return res
             axis = kwargs.get("axis", args[0] if args else None)
             if _KeepsFeAxes(axis, self.ndim) and getattr(res, "ndim", 0) >= 2:
                 return res.view(FeArray)
